@@ -1,5 +1,6 @@
 import Siot.Lemmas.Manager
 import Siot.Lemmas.StoreSteps
+import Siot.Props.C03
 import Siot.Gen.Manager
 /-
 C07 — Exactly one running client per live configured node.
@@ -297,5 +298,32 @@ theorem gen_manager_pinned :
     Gen.newManagerParents = ["nodeType: nodeType", "parentTypes: append(parentTypes, data.NodeTypeGroup)"] ∧
     Gen.csNewGetNodes = ["nc, n.ID, \"all\", \"\", false"] := by
   decide
+
+/-- non-vacuity of `c07_wanted_iff` and of the premises of `c07_quiesce`: a reachable store — root device R, a group g below it,
+    a client node c1 (type "vdev") in the group, a second one c2 below a DELETED group — wants exactly the placement (g, c1);
+    and a manager that has just scanned for it satisfies `Nodup`, is live, and is `Fresh` -/
+example :
+    let isDel : Nat → Bool := fun v => v == 4607182418800017408
+    let nt : Bytes → Int → Point := fun ty t => { type := nodeTypeT, text := ty, time := t }
+    let vdev : Bytes := [118, 100, 101, 118]
+    let st := Store.run {} [
+      .ep [82] [] [{ type := tombstoneT, time := 1 }, nt [100] 1],
+      .ep [103] [82] [{ type := tombstoneT, time := 2 }, nt groupT 2],
+      .ep [104] [82] [{ type := tombstoneT, time := 3, value := 4607182418800017408 }, nt groupT 3],
+      .ep [99, 49] [103] [{ type := tombstoneT, time := 4 }, nt vdev 4],
+      .ep [99, 50] [104] [{ type := tombstoneT, time := 5 }, nt vdev 5]]
+    let w : Want := [(([103], [99, 49]), [])]
+    let m := Manager.step {} (.scan w [])
+    Store.Inv st ∧ wanted isDel st vdev [] = [([103], [99, 49])] ∧
+      (keys m.clients).Nodup ∧ (m.stopping = false ∧ m.done = false) ∧ Fresh w m ∧ m.clients ≠ [] := by
+  intro isDel nt vdev st w m
+  refine ⟨Store.c03_reachable _, by decide +kernel, by decide +kernel, by decide +kernel, ?_, by decide +kernel⟩
+  have hm : m.clients = [⟨([103], [99, 49]), [], false⟩] := by decide +kernel
+  intro c hc _ ch hl
+  rw [hm, List.mem_singleton] at hc
+  subst hc
+  have : lookupW w ([103], [99, 49]) = some [] := by decide +kernel
+  rw [this] at hl
+  injection hl with hl
 
 end Siot.Manager
